@@ -6,12 +6,15 @@ import numpy as np
 from . import meta as gm, recording as rec
 
 STEM = "_spikeglx_ephysData_g0_t0.imec0.ap"
+# run names are the experimenter's choice; SpikeGLX appends _g<gate>_t<trigger>.imec<probe>.<band>. Some of these contain the
+# band tags as ordinary letters ("mapping", "apical_lfp").
+STEMS = [STEM, STEM, STEM, "mapping_g0_t0.imec0.ap", "apical_lfp_g2_t1.imec1.ap", "snap_g0_t3.imec0.ap", "KS091_g0_t0.imec2.ap"]
 
 
-def make_session(root, spec, D, cbin=False, chunk=3000, label="probe00"):
+def make_session(root, spec, D, cbin=False, chunk=3000, label="probe00", stem=None):
     """Writes the recording under root/label. Returns the path handed to the converter."""
     folder = Path(root) / label
-    binf = rec.write_recording(folder, spec, D, stem=STEM)
+    binf = rec.write_recording(folder, spec, D, stem=stem or STEM)
     if cbin:
         return rec.compress(binf, gm.n_channels(spec), spec["fs"], chunk, keep_bin=False)
     return binf
